@@ -75,7 +75,7 @@ func (it *Interp) callModel(fr *frame, fn *ssa.Function, args []Value) (Value, b
 var apiModels = map[string]modelFn{}
 
 func argStr(v Value) string {
-	s := v.(Str)
+	s := v.(Str).force()
 	if !s.isConcrete() {
 		panic("harness API name arguments must be constant strings")
 	}
